@@ -10,6 +10,7 @@ import (
 	"math/rand/v2"
 
 	"github.com/oasisprotocol/curve25519-voi/curve/scalar"
+	"github.com/oasisprotocol/curve25519-voi/zzverif/entropy"
 	"github.com/oasisprotocol/curve25519-voi/zzverif/gen"
 	"github.com/oasisprotocol/curve25519-voi/zzverif/hist"
 	"github.com/oasisprotocol/curve25519-voi/zzverif/mon"
@@ -399,7 +400,16 @@ func wideCatalogue(rng *rand.Rand) [][]byte {
 	return out
 }
 
+// entropyCase: the entropy-consuming APIs of this property behind differently behaving readers (package entropy).
+func entropyCase(r *mon.Run, c Case) {
+	entropy.Check(r, "C05", r.Rng(c.Stream), func(sig, what string) { r.Violate(sig, what, c) })
+}
+
 func runCase(r *mon.Run, c Case) {
+	if c.Kind == "entropy" {
+		entropyCase(r, c)
+		return
+	}
 	x := &ctx{r: r, c: c, h: hist.New(r.Rng(c.Stream + "/receivers")), hv: hist.New(r.Rng(c.Stream + "/operands"))}
 	defer func() { r.HistN("objects-with-a-past", x.h.Uses+x.hv.Uses) }()
 	rng := r.Rng(c.Stream)
@@ -495,5 +505,8 @@ func main() {
 	r.Sample("case", cases[0])
 	r.Sample("catalogue-value", fmt.Sprintf("%x", cat[len(cat)/2]))
 	r.Sample("case", cases[len(cases)-1])
+	for i := 0; i < r.Pick(6, 60); i++ {
+		entropyCase(r, Case{Kind: "entropy", Stream: fmt.Sprintf("c05/entropy/%d", i)})
+	}
 	r.Finish()
 }
